@@ -38,7 +38,8 @@ def _complex_grid(tier):
 
 
 def _decimal_grid(tier):
-    lengths = range(1, 31)
+    # quick: every length up to 18 digits (all float-exactness boundaries: 15, 16, 17 digits), then a few longer ones
+    lengths = list(range(1, 19)) + [20, 22, 25, 30] if tier == "quick" else range(1, 31)
     families = {
         "asc": lambda n: ("1234567890" * 3)[:n],
         "nines": lambda n: "9" * n,
@@ -107,7 +108,7 @@ def _bytes_grid(tier, small=False):
     for combo in itertools.product(alphabet, repeat=4):
         vals.append(b64decode("".join(combo)))
     for word in ("null", "Null", "NULL", "true", "True", "TRUE", "Infinity", "NaN+", "1234", "12345678",
-                 "0x1F", "0o17", "0b11", "1e30", "1E30", "+1e3", "1e+3", "+123", "yes+", "None"):
+                 "0x1F", "0o17", "0b11", "1e30", "1E30", "+1e3", "1e+3", "+123", "yes+", "None", "+0o7"):
         vals.append(b64decode(word))
     if tier != "quick" and not small:
         vals += [bytes(range(256)), bytes(range(255, -1, -1)), b"\x00" * 64]
@@ -129,7 +130,9 @@ def _range_grid(tier):
 
 
 PATH_TOKENS = ["a", ".", "..", "/", " ", "~", "1", "1e3", "null", "true", "#", ":", ": ", "- ", "[a]", "{a}", "*", "&a",
-               "!a", "%", "@", "`", "'", '"', "\n", "é", "-", "--x", "=", "\\", "|", ">", "0x1", ".5", "x.yaml", ","]  # fmt: skip
+               "!a", "%", "@", "`", "'", '"', "\n", "é", "-", "--x", "=", "\\", "|", ">", "0x1", ".5", "x.yaml", ",",
+               # texts on which YAML 1.1 (PyYAML) and YAML 1.2 (ruyaml, used for commented dumps) resolve differently
+               "on", "1:30", "1_0"]  # fmt: skip
 
 
 def _path_grid(tier, depth):
@@ -288,6 +291,27 @@ def shape(tname, v):
     return "value"
 
 
+def respell_class(plain_text, commented_text):
+    """How the commented dump (PyYAML text re-emitted by ruyaml) spells the scalar of `x` compared with the plain
+    yaml dump: the class of a yaml_comments-only deviation."""
+
+    def scalar(text):
+        lines = text.split("\n")
+        for i, line in enumerate(lines):
+            if line.startswith("x:"):
+                return "\n".join([line[2:]] + lines[i + 1 :]).strip()
+        return None
+
+    a, b = scalar(plain_text or ""), scalar(commented_text or "")
+    if a is None or b is None:
+        return "no-scalar"
+    if a == b:
+        return "same-scalar"
+    if a[:1] in ("'", '"'):
+        return "quoted-scalar-respelled" if b[:1] == a[:1] else "quotes-dropped"
+    return "plain-scalar-respelled"
+
+
 def same(tname, want, got):
     """None when `got` is the same value as `want`; else the verdict."""
     if type(got) is not type(want):
@@ -316,7 +340,7 @@ def same(tname, want, got):
 
 def formats(mode, tier):
     if mode == "yaml":
-        return ["yaml", "json"] if tier == "quick" else ["yaml", "json", "json_indented", "yaml_comments"]
+        return ["yaml", "json", "yaml_comments"] if tier == "quick" else ["yaml", "json", "json_indented", "yaml_comments"]
     return ["json"] if tier == "quick" else ["json", "json_indented"]
 
 
@@ -367,6 +391,7 @@ def roundtrip(tname, enc, mode, tier):
         return results, evals, ops
     cfg = o["value"]
     ser = None
+    texts = {}
     with scratch_dir() as d:
         for fmt in formats(mode, tier):
             o = outcome(parser.dump, cfg, format=fmt)
@@ -376,7 +401,7 @@ def roundtrip(tname, enc, mode, tier):
                 results.append(("dump", fmt, "dump-raises-" + o.get("type", o["kind"]).rsplit(".", 1)[-1],
                                 o.get("message", "")[:160]))
                 continue
-            text = o["value"]
+            text = texts[fmt] = o["value"]
             if fmt == "json":
                 ser = json.loads(text)["x"]
             o = outcome(parser.parse_string, text)
@@ -385,6 +410,9 @@ def roundtrip(tname, enc, mode, tier):
             verdict, detail = parsed(o)
             if verdict:
                 results.append(("string", fmt, verdict, f"dump {text!r} -> {detail}"))
+            if tier == "quick" and mode == "yaml" and fmt != "yaml":
+                continue  # quick tier, yaml mode: json / commented text through parse_string only; --cfg FILE gets the
+                # plain yaml dump (and, in json mode, the json dump); the file is read by the same loader as the string
             path = os.path.join(d, "c." + ("json" if fmt.startswith("json") else "yaml"))
             with open(path, "w") as f:
                 f.write(text)
@@ -408,6 +436,9 @@ def roundtrip(tname, enc, mode, tier):
             verdict, detail = parsed(o)
             if verdict:
                 results.append(("argv", "-", verdict, f"--x={_argv_text(ser)!r} -> {detail}"))
+    if any(r[1] == "yaml_comments" for r in results):
+        cls = respell_class(texts.get("yaml"), texts.get("yaml_comments"))
+        results = [r + (cls,) if r[1] == "yaml_comments" else r for r in results]
     return results, evals, ops
 
 
@@ -415,14 +446,16 @@ def signatures(tname, enc, results):
     v = decode(tname, enc)
     shp = shape(tname, v)
     out = []
-    fails_plain_yaml = {channel for channel, fmt, _, _ in results if fmt == "yaml"}
-    for channel, fmt, verdict, detail in results:
+    fails_plain_yaml = {r[0] for r in results if r[1] == "yaml"}
+    for channel, fmt, verdict, detail, *extra in results:
         if fmt == "yaml_comments" and channel not in fails_plain_yaml:
             # only the commented dump fails: its text went through a second YAML library (root cause is the format)
             sig = "roundtrip:yaml_comments-only:%s" % verdict
             if verdict == "unequal":
                 # the commented text parsed, but to another value: name the type so that the entry stays narrow
                 sig += ":" + ("Path" if tname == "PosixPath" else tname)
+            # how the second library re-spelled the scalar: quotes dropped / plain scalar re-written / ...
+            sig += ":" + (extra[0] if extra else "no-scalar")
         else:
             # pathlib.Path and pathlib.PosixPath share one handler (and one class of instances on this platform)
             sig = "roundtrip:%s:%s:%s" % ("Path" if tname == "PosixPath" else tname, verdict, shp)
